@@ -23,7 +23,8 @@ EXTENDS Fds, RedirAbs, Json
 
 CONSTANTS Cfg,     \* name of the scenario family (see Scenarios)
           Bug,     \* "none" or the name of a wrong action
-          Sim      \* TRUE: resolve unconstrained choices as VirtualSystem does
+          Sim      \* how open() orders EMFILE and its side effects, which POSIX leaves
+                   \* open: TRUE = create/truncate first (VirtualSystem), FALSE = EMFILE first
 
 VARIABLES sc,      \* the scenario (constant along a behaviour)
           k,       \* kernel state of the process applying the redirections
@@ -127,6 +128,10 @@ Fam(c) ==
     [] c = "q1" -> Family({"std", "x35"}, BOOLEAN, {NoLimit}, AllKinds, TRUE, Seq1(Full1) \cup {<<>>})
                    \cup Family({"full", "int"}, {FALSE}, {NoLimit}, CoreKinds, TRUE,
                                Seq1(Alpha({0, 1, 3}, AllOps, {"a", "m"}, {1, 4, 10}, AllMisc)))
+                   \cup Fam("resv")
+    \* the target itself is a descriptor reserved by the shell (10 = its script file)
+    [] c = "resv" -> Family({"int"}, {FALSE}, {NoLimit}, CoreKinds, FALSE,
+                           Seq1(Alpha({10}, {"in", "out", "dupout"}, {"a"}, {1}, {"closeout", "here"})))
     \* single redirections under every descriptor limit
     [] c = "q2" -> Family(All4, {FALSE}, 0 .. 13, {"builtin", "exec", "empty"}, FALSE, Seq1(Lim1))
     \* pairs, no limit
@@ -140,7 +145,7 @@ Fam(c) ==
                           Seq1(Alpha({1}, AllOps, {"a", "m", "d", "t"}, {1, 4, 10}, AllMisc))
                           \cup {<<R(1, "out", "m", -1), R(1, "app", "a", -1)>>, <<>>})
     \* thorough --------------------------------------------------------------
-    [] c = "t1" -> Family(All4, BOOLEAN, {NoLimit}, AllKinds, TRUE, Seq1(Full1) \cup {<<>>})
+    [] c = "t1" -> Fam("resv") \cup Family(All4, BOOLEAN, {NoLimit}, AllKinds, TRUE, Seq1(Full1) \cup {<<>>})
                    \cup Family(All4, {FALSE}, {3, 4, 5, 9, 10, 11, 12, 13}, AllKinds, FALSE, Seq1(Full1))
     [] c = "t2" -> Family({"std", "x35"}, BOOLEAN, {NoLimit}, {"builtin", "special", "exec"}, FALSE,
                           Seq2(Mid, Mid))
@@ -161,14 +166,11 @@ IsSpecial(kind) == kind \in {"special", "exec"}
 MarkFds == <<0, 1, 2, 3, 5>>
 Tok(f)  == CASE f = 0 -> "c0" [] f = 1 -> "c1" [] f = 2 -> "c2" [] f = 3 -> "c3" [] f = 5 -> "c5"
 
-\* kernel in which the list is applied.  A command without a name applies
-\* it in a subshell; whether the child keeps the parent's limit is the
-\* kernel's business (POSIX: yes; VirtualSystem: no).
-KStart(s) == IF s.kind = "empty" /\ Sim THEN [K0(s) EXCEPT !.lim = NoLimit] ELSE K0(s)
-
+\* A command without a name applies its list in a subshell: a copy of the
+\* descriptor table (same open file descriptions), same limit, same files.
 Init ==
   /\ sc \in Scenarios
-  /\ k = KStart(sc)
+  /\ k = K0(sc)
   /\ pc = IF Len(sc.list) = 0 THEN "exec" ELSE "check"
   /\ i = 1 /\ saved = <<>> /\ cur = -1 /\ spec = [own |-> FALSE, fd |-> -1]
   /\ failed = 0 /\ ran = FALSE /\ obsIn = <<>> /\ wr = <<>> /\ st = 0 /\ exited = FALSE
